@@ -33,6 +33,11 @@ def make_experiments(d, seed):
     w.write_fasta(os.path.join(d, "g.fa"))
     w.write_gtf(os.path.join(d, "a.gtf"))
     reads = [r for r in w.reads]
+    # one read -> group table for all experiments (sequences run with --read_group file:...): experiments that share read ids (A and B share a
+    # third of their reads, A2 is a copy of A) each look their own reads up in it
+    with open(os.path.join(d, "groups.tsv"), "w") as f:
+        for nm in sorted({r.name for r in reads}):
+            f.write("%s\tgrp%d\n" % (nm, sum(map(ord, nm)) % 3))
     from vlib.world import Read
     rng = w.rng
     sets = {"A": [r for i, r in enumerate(reads) if i % 3 != 0],
@@ -164,11 +169,13 @@ def run(chk, scratch):
                     (["A", "B"], "one", 1, "yaml-nomodels"), (["C", "A", "B"], "one", 1, "yaml"),
                     (["A", "B"], ("one", "skew"), 1, "yaml"), (["B", "A"], ("skew", "one"), 1, "yaml"), (["C", "A", "B"], ("one", "skew", "two"), 4, "list"),
                     (["A", "B"], "skew", 4, "yaml"), (["A", "B"], "two", 1, "yaml-unl:B"), (["B", "A", "C"], "two", 2, "yaml-unl:B,C"),
-                    (["C", "A"], ("one", "two"), 1, "yaml-unl:C"), (["B", "B "], "one", 1, "yaml"), (["B ", "A", "B"], "two", 3, "yaml"), (["SKIP", "A", "B"], "one", 1, "yaml-ill:SKIP,A"), (["A", "SKIP", "B", "C"], "one", 2, "yaml-ill:A,C")]
+                    (["C", "A"], ("one", "two"), 1, "yaml-unl:C"), (["B", "B "], "one", 1, "yaml"), (["B ", "A", "B"], "two", 3, "yaml"), (["SKIP", "A", "B"], "one", 1, "yaml-ill:SKIP,A"), (["A", "SKIP", "B", "C"], "one", 2, "yaml-ill:A,C"),
+                    (["A", "A2", "B"], "one", 1, "list-rgtable"), (["B", "A"], "one", 3, "yaml-rgtable")]
         else:
             seqs = [(["A", "B", "C"], "one", 1, "yaml"), (["B", "A"], "one", 4, "list"), (["A", "B"], "two", 1, "yaml"),
                     (["A", "A2"], "one", 1, "yaml"), (["A", "B"], ("one", "skew"), 1, "yaml"), (["B", "A"], ("skew", "one"), 2, "list"),
-                    (["A", "B"], "two", 2, "yaml-unl:B"), (["B", "B "], "one", 2, "yaml"), (["SKIP", "A", "B"], "one", 1, "yaml-ill:SKIP,A")]
+                    (["A", "B"], "two", 2, "yaml-unl:B"), (["B", "B "], "one", 2, "yaml"), (["SKIP", "A", "B"], "one", 1, "yaml-ill:SKIP,A"),
+                    (["A", "A2", "B"], "one", 1, "list-rgtable")]
         # stand-alone runs (per experiment x files x threads x mode)
         # a sequence whose experiments differ in the number of files runs (stand-alone and joint) with an explicit --read_group file_name,
         # which a mixed sequence would otherwise switch on implicitly for all experiments
@@ -190,6 +197,7 @@ def run(chk, scratch):
             inp = os.path.join(d, "solo_%s_%s_%s_%s.in" % (tag, nf, mode.replace(":", "-").replace(",", "-"), rg))
             extra = ["--no_model_construction"] if mode.endswith("nomodels") else []
             extra += ["--read_group", "file_name"] if rg else []
+            extra += ["--read_group", "file:%s" % os.path.join(d, "groups.tsv")] if mode.endswith("rgtable") else []
             if mode.startswith("yaml"):
                 write_yaml(inp, [(n, paths[n][nf])], unlabeled=unlabeled_of(mode), illumina=illumina_of(mode))
                 a = ["-o", out, "--yaml", inp]
@@ -213,6 +221,7 @@ def run(chk, scratch):
             inp = os.path.join(d, "joint%d.in" % i)
             extra = ["--no_model_construction"] if mode.endswith("nomodels") else []
             extra += rg_of(nf)
+            extra += ["--read_group", "file:%s" % os.path.join(d, "groups.tsv")] if mode.endswith("rgtable") else []
             exps = [(n, paths[n][nf_of(nf, pos)]) for pos, n in enumerate(names)]
             if mode.startswith("yaml"):
                 write_yaml(inp, exps, unlabeled=unlabeled_of(mode), illumina=illumina_of(mode))
